@@ -13,7 +13,8 @@ TRUSTED_BASE_COMMON = [
     "Coq 8.16.1 kernel (coqc, full .vo build; vm_compute used, native_compute not used)",
     "no Axiom/Parameter/Admitted in the development (grep gate on every run); Print Assumptions of every property theorem must be 'Closed under the global context'",
     "translator: harness/probe/probe.rs (syn-based extraction of match arms and quote! templates) + py/verif/translate.py (rendering to GenTables.v)",
-    "correspondence harnesses: L1 in-process expansion probe, L2 compiled corpus, L3 libdiff; Python generators, renderers and oracles",
+    "second translator (C02/C05/C10 strengthening tie): probe.rs `ast` dump + py/verif/imp_translate.py -> GenImp.v (utils.rs, builder/instantiate.rs, types.rs builders, ctx.rs as terms of Model/Imp.v); the Imp semantics as a description of Rust for that subset (usize as nat, shared references transparent, value-preserving conversions as identity) is validated by the L3 differential run",
+    "correspondence harnesses: L1 in-process expansion probe, L2 compiled corpus, L3 libdiff (+ featdiff under a witnessing feature set); Python generators, renderers and oracles",
     "modelled not verified: serde/serde_derive/serde-json-wasm/serde-cw-value decoding rules, convert_case, konst, cw-utils, cw-multi-test, schemars, rustc",
 ]
 
